@@ -102,3 +102,23 @@ def run_C12(ctx):
     ctx.cov["exhaustive"] = True
     st = ctx.vh("scan-replay", r.out, "selftest")
     ctx.selftest(st["n_mismatch"] == st["cases"], "C12 G: every corrupted expectation is reported")
+
+
+# ------------------------------------------------------------------------ C10
+def run_C10(ctx):
+    ctx.cov["rule"] = ("G: every document of <= MaxLen tokens over a MACRO/PASTE menu (19 tokens: 2 defined macro names + 1 undefined, explicit/implicit "
+                       "contexts, URL/method/response/body/ENUM/TYPE, ')') whose tree builds; for each the predicted expansion (tree shape or error class + line) "
+                       "is compared with the real scanProject+processPaste, and the catalog of the macro form with the catalog of the in-place form. "
+                       "Non-trivial = contains MACRO or PASTE, distinct by (verdict, size, token kinds).")
+    ctx.assumptions += ["both forms are rendered one directive per line; error wording is compared by class only"]
+    cfg = "MC_C10_quick.cfg" if ctx.quick else "MC_C10_thorough.cfg"
+    r = ctx.tlc("MC_C10", cfg=cfg, timeout=3300)
+    res = ctx.vh("c10-replay", r.out)
+    ctx.absorb(res, "G:c10-replay")
+    ctx.cov["exhaustive"] = True
+    st = ctx.vh("c10-replay", r.out, "selftest")
+    ctx.selftest(st["n_mismatch"] == st["cases"], "C10 G: every corrupted expectation is reported")
+    # cycles of every length 1..4 (and a long chain that is not a cycle)
+    r2 = ctx.tlc("MC_C10cyc", timeout=900)
+    res2 = ctx.vh_isolated("c10-replay", r2.out, chunk=400, timeout=120, sig_prefix="c10")
+    ctx.absorb(res2, "G:c10-replay(cycles)")
